@@ -79,7 +79,8 @@ OPTIONS = {
     "a": (["line"], st.just(True)),
     "afs": (["line"], st.sampled_from([5.0, 15.0])),
 }
-CONFLICTS = [({"nogrid"}, {"gc", "gs", "gw"}), ({"nomargin"}, {"left", "right", "top", "bottom"})]
+# -nogrid together with -gc/-gs/-gw is generated: there is then no grid to style, and -nogrid must still remove it
+CONFLICTS = [({"nomargin"}, {"left", "right", "top", "bottom"})]
 
 
 def strategy(tier):
@@ -303,6 +304,8 @@ def check_figure(case, ctx):
             if any(not cmpx.close(a["title_fs"], v) for a in axes):
                 fail(o, "title font sizes %r, expected %r" % ([a["title_fs"] for a in axes], v))
         elif o in ("gc", "gs", "gw"):
+            if "nogrid" in opts:
+                continue            # no grid to style (judged under -nogrid)
             for a in axes:
                 g = a["grid"]
                 if o == "gc":
@@ -394,6 +397,13 @@ STYLE_KINDS = {
     "corr-location": (["-m", "corr", "-x", "location"], False),
     "ets-threshold": (["-m", "ets", "-x", "threshold", "-r", "0,1,2"], True),
     "rmse-leadtime": (["-m", "rmse", "-x", "leadtime"], True),
+    "obs-hist": (["-m", "obs", "-hist", "-r", "-5,-2,0,2,5"], True),
+    "fcst-sort": (["-m", "fcst", "-sort"], True),
+    "economicvalue": (["-m", "economicvalue", "-r", "1"], True),
+    "droc": (["-m", "droc", "-r", "1"], True),
+    "murphy": (["-m", "murphy", "-r", "1"], True),
+    "bsdecomp": (["-m", "bsdecomp", "-r", "1"], False),
+    "invreliability": (["-m", "invreliability", "-q", "0.5"], True),
 }
 
 
@@ -452,7 +462,7 @@ def check_styles(case, ctx):
     for ai, a in enumerate(axes[:1]):
         lines = [ln for ln in a["lines"] if ln["label"] in names]
         if [ln["label"] for ln in lines] != names:
-            ctx.fail("C17/styles/series", case, "argv: %s: labelled series %r, expected one per input %r" % (" ".join(map(str, short)), [ln["label"] for ln in lines], names))
+            ctx.fail("C17/styles/series/" + kind, case, "argv: %s: labelled series %r, expected one per input %r" % (" ".join(map(str, short)), [ln["label"] for ln in lines], names))
             return
         for o, v in opts.items():
             if o == "leg" or (o == "ls" and not has_line):
@@ -501,9 +511,118 @@ def single_items(tier):
     return items
 
 
+# ---- -a / -af: what the annotations say -------------------------------------------------------
+AF_FIELDS = ["score", "key", "lat", "lon", "elev", "location"]
+
+
+def ann_strategy(tier):
+    @st.composite
+    def s(draw):
+        kind = draw(st.sampled_from(["line", "line", "map", "obsfcst"]))
+        axis = draw(st.sampled_from(["location", "lat", "lon", "elev", "leadtime", "time"])) if kind != "map" else None
+        loc_like = kind == "map" or axis in ("location", "lat", "lon", "elev")
+        pool = AF_FIELDS if loc_like else ["score", "key"]
+        af = draw(st.one_of(st.none(), st.lists(st.sampled_from(pool), min_size=1, max_size=4, unique=True)))
+        return {"ann_kind": kind, "axis": axis, "af": af, "shape": draw(st.sampled_from(["full2", "full3", "full2-nomissing"]))}
+    return s()
+
+
+def check_annotations(case, ctx):
+    """-a puts one text at every drawn point; -af says which fields it shows ('%g ' per field, in the order given;
+    'score key' without -af). lat / lon / elev / location are those of the point's own location."""
+    from .. import drive, figdump, mat
+    if "ann_kind" not in case:
+        return check_figure(case, ctx)
+    kind, axis, af = case["ann_kind"], case["axis"], case["af"]
+    key = (case["shape"],)
+    spec = fixed.get(case["shape"])
+    if key not in _files or not os.path.exists(_files[key][0]):
+        d = os.path.join(ctx.scratch, "files_" + case["shape"])
+        os.makedirs(d, exist_ok=True)
+        _files[key] = mat.write_files(spec, d, "text")[0]
+    paths = _files[key]
+    base = {"line": ["-m", "mae", "-x", axis], "map": ["-m", "mae", "-type", "map"], "obsfcst": ["-m", "obsfcst", "-x", axis]}[kind]
+    args = list(paths) + base + ["-a"] + (["-af", ",".join(af)] if af else [])
+    r = drive.run(args)
+    _runs[0] += 1
+    ctx.evals += 1
+    short = [os.path.basename(a) if os.sep in str(a) else a for a in args]
+    ctx.label("annotations/" + kind)
+    if r.exc is not None:
+        ctx.fail("C17/exception/%s" % r.exc_key, case, "argv: %s\n%s" % (" ".join(map(str, short)), r.tb[-600:]))
+        drive.close_figures()
+        return
+    if r.exit not in (None, 0):
+        ctx.fail("C17/exit", case, "argv: %s: %s" % (" ".join(map(str, short)), " | ".join(r.error_lines())))
+        return
+    dump = figdump.dump_current()
+    if _runs[0] % 20 == 0:
+        drive.close_figures()
+    axes = [a for a in dump["axes"] if not a["is_colorbar"]]
+    locs = sorted(spec["locs"], key=lambda l: l["id"])
+    fields = af if af else ["score", "key"]
+    if af and len(af) >= 2:
+        ctx.nt(("annotations", kind, axis, af, case["shape"]))
+        ctx.label("nontrivial")
+        ctx.sample({"argv": short})
+
+    def fail(msg):
+        ctx.fail("C17/applied/-af" if af else "C17/applied/-a", case, "argv: %s: %s" % (" ".join(map(str, short)), msg))
+
+    def loc_value(f, i):
+        return {"lat": locs[i]["lat"], "lon": locs[i]["lon"], "elev": locs[i]["elev"], "location": locs[i]["id"]}[f]
+
+    def text_of(vals):
+        if af:
+            return "".join("%g " % v for v in vals)
+        return "%g %g" % tuple(vals)
+
+    if kind in ("line", "obsfcst"):
+        a = axes[0]
+        loc_like = axis in ("location", "lat", "lon", "elev")
+        expected = []
+        for ln in a["lines"]:
+            if ln["label"] in ("ideal", "_nolegend_") or ln["label"].startswith("_") or len(ln["x"]) != (len(locs) if loc_like else len(ln["x"])):
+                continue
+            for i, (x, y) in enumerate(zip(ln["x"], ln["y"])):
+                if x != x or y != y:
+                    continue
+                vals = [y if f == "score" else x if f == "key" else loc_value(f, i) for f in fields]
+                expected.append((round(x, 6), round(y, 6), text_of(vals)))
+        got = [(round(t["x"], 6), round(t["y"], 6), t["text"]) for t in a["texts"]]
+        if sorted(got) != sorted(expected):
+            miss = [e for e in expected if e not in got][:3]
+            extra = [g for g in got if g not in expected][:3]
+            fail("annotation texts differ from the fields asked for (%r): expected but absent %r, present but unexpected %r" % (fields, miss, extra))
+        return
+    # map: one axes per input; a text at (lon, lat) of every location that has a score
+    for a in axes:
+        if not a["texts"]:
+            fail("no annotation on a map axes")
+            return
+        for t in a["texts"]:
+            cand = [i for i, l in enumerate(locs) if cmpx.close(l["lon"], t["x"], 1e-9) and cmpx.close(l["lat"], t["y"], 1e-9)]
+            if len(cand) != 1:
+                fail("annotation %r at (%r, %r) is not at a location of the dataset" % (t["text"], t["x"], t["y"]))
+                return
+            i = cand[0]
+            toks = t["text"].split()
+            if len(toks) != len(fields):
+                fail("annotation %r has %d fields, %d asked for (%r)" % (t["text"], len(toks), len(fields), fields))
+                return
+            for f, tok in zip(fields, toks):
+                if f == "score":
+                    continue
+                want = "%g" % (locs[i]["id"] if f == "key" else loc_value(f, i))
+                if tok != want:
+                    fail("location %d: field %r shown as %s, the location's value is %s (annotation %r)" % (locs[i]["id"], f, tok, want, t["text"]))
+                    return
+
+
 def campaigns(tier):
     return [
         Enum("single-options", single_items, check_figure, "every kind of figure x every option generated for it x every value, one option at a time"),
         Hyp("figures", strategy, check_figure, quick=560, thorough=40000, budget_quick=75, budget_thorough=2400),
         Hyp("styles", styles_strategy, check_styles, quick=480, thorough=12000, budget_quick=40, budget_thorough=1200),
+        Hyp("annotations", ann_strategy, check_annotations, quick=320, thorough=8000, budget_quick=30, budget_thorough=900),
     ]
